@@ -110,7 +110,7 @@ theorem invCap_lprim {c c' : Cell} {lab : Lab} (hc : InvCap c) (hp : LPrim lab c
   | remove h => exact invCap_remove hc h
   | release h => exact invCap_release hc h
   | acquire h => exact invCap_acquire hc h
-  | appMeta ha hid hsv _ _ hd _ _ _ _ _ _ _ _ _ _ _ => exact invCap_appSame hc ha hid hsv hd
+  | appMeta ha hid hsv _ _ hd _ _ _ _ _ _ _ _ _ _ _ _ => exact invCap_appSame hc ha hid hsv hd
   | setRenew ha => exact invCap_appSame hc ha rfl rfl rfl
   | ghost ha => exact invCap_appSame hc ha rfl rfl rfl
   | dropDangling ha hon hgone => exact invCap_dropDangling hc ha hon hgone
